@@ -36,7 +36,7 @@ CLAIMED = {
        "(witness theorem, replayed on the implementation). Tie: transcription check of all 32 wrappers against the text the model was written from + "
        "script correspondence (return value, error, both positions, frame count, file cursor, data digest, tail class) over every container x "
        "sample-granular encoding x channels{1,2,3}, all entry points, straddling / EOF / misaligned / >8 KiB requests; block codecs: contract oracle.",
-  note="Trusted: Coq kernel, the hand-written model Api.v (tied on every run as described), extraction, sfdrive harness (guard-banded buffers, ASan+UBSan "
+  note="Oracles on the implementation: block codecs with requests beyond the staging buffers (RAW files opened with their parameters), sf_read_raw / sf_write_raw on every sample-granular container. Trusted: Coq kernel, the hand-written model Api.v (tied on every run as described), extraction, sfdrive harness (guard-banded buffers, ASan+UBSan "
        "build of the working tree), PcmConv.v conversions (C02). Block codecs are covered by the property oracle on the implementation only. "
        "Known findings: SDS final partial block, pad-byte partial frame.",
   technique="Coq proof over an executable wrapper state machine + source transcription check + differential script correspondence",
@@ -132,7 +132,7 @@ CLAIMED = {
        "(exact-size blocks under ASan) + set / close / re-open / get oracle through WAV, WAVEX, RF64, AIFF, CAF for strings of all ten types, bext "
        "(all fields, histories with every line-end style), cart, 0..100 cues, instrument with 0..16 loops, channel maps, in random order, and sets "
        "made too late.",
-  note="Trusted: Coq kernel, hand-written StrMeta.v (tied by K on every run), extraction, sfdrive. The chunk writers/readers of wavlike.c, aiff.c, caf.c are "
+  note="The instrument oracle compares base note, detune (swept 0..50), loop mode / bounds / count. Trusted: Coq kernel, hand-written StrMeta.v (tied by K on every run), extraction, sfdrive. The chunk writers/readers of wavlike.c, aiff.c, caf.c are "
        "covered by the round-trip oracle only. Cue names and instrument detune/gain/velocity/key ranges are not compared (WAV does not store them); the "
        "AIFF writer stores neither cues nor instrument (accepted and ignored).",
   technique="Coq proof (line-end normaliser, string table refinement) + differential K correspondence + metadata round-trip oracle",
@@ -158,7 +158,7 @@ CLAIMED = {
        "predicted by the model in C01 / C05; re-open oracle over every writable container x encoding x channels{1,2,3,8,256,1024} x rates {1 .. 2^31-1} x N "
        "{0,1,2,7,64,505,1001} split over calls and types with stale SF_INFO.frames: channels, container, encoding, rate (exact for integer-Hz containers), "
        "N <= F < N + B, reading delivers exactly F frames then EOF.",
-  note="Trusted: Coq kernel, Ext80.v (tied by K), Stream.v (block codecs abstract). Header writers / parsers of the 23 containers are decided by the oracle. B is "
+  note="Lengths include whole numbers of codec blocks and multi-packet incompressible ALAC; frame-count findings are keyed by direction (short / long). Trusted: Coq kernel, Ext80.v (tied by K), Stream.v (block codecs abstract). Header writers / parsers of the 23 containers are decided by the oracle. B is "
        "measured on the implementation (one-frame file). Known findings: AIFF rate >= 2^30, PAF24 / SDS final block, tiny SD2 files, PVF short header.",
   technique="Coq proof (symbolic arithmetic for the 80-bit rate, generic block-stream theorem) + differential K correspondence + re-open oracle",
   design_ref="DESIGN.md section 5 C04"),
@@ -178,7 +178,7 @@ CLAIMED = {
        "encoding (ALAC excluded) x channels{1,2}: after every write in auto-update mode or explicit SFC_UPDATE_HEADER_NOW the stored bytes are copied and "
        "opened by a second handle: same parameters, frame count = frames written (whole blocks for block codecs), reading delivers exactly that count and "
        "those frames equal the first frames of the finished file.",
-  note="Trusted: Coq kernel, Stream.v (block writers abstract). Header writers / parsers are decided by the crash-image oracle. Known findings: AIFF/DWVW bit "
+  note="Includes header updates issued while the write position is in the middle of the file (overwrite after seek). Trusted: Coq kernel, Stream.v (block writers abstract). Header writers / parsers are decided by the crash-image oracle. Known findings: AIFF/DWVW bit "
        "reservoir, SDS / PAF24 final block.",
   technique="Coq proof (prefix invariant of block writers by induction) + crash-image oracle at every update point",
   design_ref="DESIGN.md section 5 C11"),
@@ -191,7 +191,7 @@ CLAIMED = {
        "Ties: K correspondence for header_read / header_seek / psf_bump_header_allocation under injected short transfers and for validate_sfinfo. "
        "Search/support (not proof): structure-aware mutation of library-written files of every format and hand-built chunk soups, opened and exercised through every "
        "read type, seeks, commands, strings, chunk iteration under ASan/UBSan/LSan with guard-banded buffers and a time budget.",
-  note="The memory safety of the ~25 format parsers themselves and the wall-clock bound are NOT theorems: they are only exercised by the mutation runs. "
+  note="Mutation search includes repeated chunks with a changed leading field, a sweep that zeroes / saturates every header field, read/write opens, and the stored-maxima queries. The memory safety of the ~25 format parsers themselves and the wall-clock bound are NOT theorems: they are only exercised by the mutation runs. "
        "Trusted: Coq kernel, translator/gate2gallina.py, hand-written HeaderCache.v (K tie), extraction, sfdrive.",
   technique="Coq proof (invariant by induction over header-cache histories; translated open gate) + K correspondence; sanitizer mutation runs as search support",
   design_ref="DESIGN.md section 5 C03"),
@@ -240,7 +240,7 @@ CLAIMED = {
        "virtual callbacks + route oracle: the same samples written through four routes give byte identical files; the same read / seek / string / info script "
        "through virtual I/O, path, descriptor (close_desc 0/1), descriptor at an offset inside a junk-wrapped file, and (WAV/AIFF/AU) a pipe gives identical "
        "results; fcntl(F_GETFD) after sf_close.",
-  note="Trusted: Coq kernel, hand-written FileIO.v (tied by K on every run), sfdrive. Pipe behaviour (kernel buffering, is_pipe paths of the header readers) is covered "
+  note="The descriptor table is checked after every close and failing open on every route (descriptor ledger of sfdrive). Trusted: Coq kernel, hand-written FileIO.v (tied by K on every run), sfdrive. Pipe behaviour (kernel buffering, is_pipe paths of the header readers) is covered "
        "by the oracle only; SD2 (resource fork file) only exists on the path route.",
   technique="Coq proof (refinement between I/O routes by induction over operation histories) + differential K correspondence + cross-route oracle",
   design_ref="DESIGN.md section 5 C14"),
